@@ -281,6 +281,10 @@ func hostileInputs() []string {
 		`"2015-08-01"`, `"12:34:56"`, `"12:34:56+01"`, `"12:34:56+01:00"`, `"12:34:56+01:00:00"`, `"12:34:56Z"`, `"2015-08-01T12:34:56"`, `"2015-08-01T12:34:56Z"`, `"2015-08-01T12:34:56+05:30"`, `"2015-08-01T12:34:56-05"`, `"2015-08-01T12:34:56+05:30:15"`,
 		`"2015-08-01 12:34:56"`, `"2015-08-01T12:34"`, `"12:34"`, `"12"`, `"+"`, `"-"`, `"+1"`, `"Z"`, `"12:00"`, `"1:2:3"`, `"2015-8-1"`, `"24:00:00"`, `"2015-13-01"`, `"2015-02-30"`, `"12:34:56.1234567891"`, `"12:34:56."`, `"12:34:56+"`, `"12:34:56+1"`, `"12:34:56+123"`,
 		` "2015-08-01"`, `"2015-08-01" `, "\"2015-08-01\"\n", `"2015-08-01""`, `""2015-08-01"`, "\x00", "\xff\xfe", `"2015-08-01"`, `"20150801"`, `"0000-00-00"`, `"9999-12-31T23:59:59.999999999+14:00"`, `"0001-01-01T00:00:00-12:00"`}
+	// a quote at one end only, around text that would be a valid value: not a JSON string
+	for _, v := range []string{"2015-08-01", "12:34:56", "12:34:56+01:00", "2015-08-01T12:34:56", "2015-08-01T12:34:56+05:30"} {
+		out = append(out, `x`+v+`"`, `"`+v+`x`, v+`"`, `"`+v, `1`+v+`"`, `"`+v+`1`, `'`+v+`"`, `"`+v+`'`, v)
+	}
 	// strings of every length 0..12 built from the characters the zone probes look at
 	for l := 0; l <= 12; l++ {
 		for _, ch := range []string{"1", "+", "-", ":", "Z", "a"} {
